@@ -1,10 +1,10 @@
 (* GENERATED on every run by harness/C11.py translate() with translate/pypdata2coq.py from
    /repo/psiaudio/pipeline.py - do not edit.  Vocabulary: coq/PData/TieLib.v.  Tie theorems: coq/PData/ProofsTie.v. *)
-From PV Require Import PData.TieLib.
+From PV Require Import PData.TieLib PData.TieLibConcat.
 Open Scope Z_scope.
 
 (* pipeline.normalize_index, line 18 *)
-Definition gen_normalize_index (index' : pyval) (ndim' : Z) : gres pyval :=
+Definition gen_normalize_index (index' : pyval) (ndim' : Z) : gres (pyval) :=
 if (py_is_none index')
  then GOk (PTuple ([PNone] ++ (rep_range pfull ndim')))
  else if (py_is_ellipsis index')
@@ -76,7 +76,7 @@ GOk norm_index') norm_index') (fun norm_index' =>
 GOk (PTuple norm_index')))))))))).
 
 (* pipeline.PipelineData.__getitem__, line 134 *)
-Definition gen_getitem (self' : pd) (s' : pyval) : gres pyobj :=
+Definition gen_getitem (self' : pd) (s' : pyval) : gres (pyobj) :=
 gbind (np_super_getitem self' s') (fun obj' =>
 if (isinst_PipelineData s')
  then GOk obj'
@@ -189,3 +189,87 @@ GOk obj')
 GOk obj')) (fun obj' =>
 GOk (OArr obj'))))))
 end).
+
+(* pipeline.ensure_dim, line 255 *)
+Definition gen_ensure_dim (arrays' : list pd) (dim' : cdim) : gres (list pd) :=
+gbind (list_hd arrays') (fun tmp1 =>
+let ndim' := (ndim tmp1) in
+gbind (if ((cdim_eqb dim' DChan) && (ndim' =? 1))
+ then let s' := (PTuple [PNone; pfull]) in
+GOk s'
+ else gbind (if ((cdim_eqb dim' DEpoch) && (ndim' =? 1))
+ then let s' := (PTuple [PNone; PNone; pfull]) in
+GOk s'
+ else gbind (if ((cdim_eqb dim' DEpoch) && (ndim' =? 2))
+ then let s' := (PTuple [PNone; pfull; pfull]) in
+GOk s'
+ else let s' := pfull in
+GOk s') (fun s' =>
+GOk s')) (fun s' =>
+GOk s')) (fun s' =>
+gbind (gmap (fun a' =>
+gbind (gbind (gen_getitem a' s') obj_as_pd) (fun tmp2 =>
+GOk tmp2)) arrays') (fun tmp3 =>
+GOk tmp3))).
+
+(* pipeline.concat, line 286 *)
+Definition gen_concat (arrays' : list pd) (axis' : pyaxis) : gres (pyobj) :=
+gbind (py_dim_axis axis') (fun dim' =>
+if negb (existsb (fun _ : pd => true) arrays')
+ then np_concatenate_none arrays'
+ else if negb (forallb (fun _ : pd => true) arrays')
+ then GRaise EValue
+ else gbind (gen_ensure_dim arrays' dim') (fun tmp1 =>
+let arrays' := tmp1 in
+gbind (list_hd arrays') (fun tmp2 =>
+let base_arr' := tmp2 in
+gbind (gfold (fun a' _ =>
+if (negb ((ndim a') =? (ndim base_arr')))
+ then GRaise EValue
+ else GOk tt) (tl arrays') tt) (fun _ =>
+let fs' := (pd_fs base_arr') in
+gbind (gfold (fun a' _ =>
+if (negb (rate_eqb (pd_fs a') (pd_fs base_arr')))
+ then GRaise EValue
+ else GOk tt) (tl arrays') tt) (fun _ =>
+let s0' := (s0 base_arr') in
+gbind (if (cdim_eqb dim' DTime)
+ then gbind (list_hd arrays') (fun tmp3 =>
+let current_s0' := (s0' + (n_time tmp3)) in
+gbind (gfold (fun a' current_s0' =>
+if (negb ((s0 a') =? current_s0'))
+ then GRaise EValue
+ else let current_s0' := (current_s0' + (n_time a')) in
+GOk current_s0') (tl arrays') current_s0') (fun current_s0' =>
+GOk tt))
+ else GOk tt) (fun _ =>
+gbind (if (negb (cdim_eqb dim' DChan))
+ then let channel' := (chan base_arr') in
+gbind (gfold (fun a' _ =>
+if (negb (eqb_lab (chan a') channel'))
+ then GRaise EValue
+ else GOk tt) (tl arrays') tt) (fun _ =>
+GOk channel')
+ else gbind (labs_concat (map (fun array' => chan array') arrays')) (fun tmp4 =>
+let channel' := tmp4 in
+GOk channel')) (fun channel' =>
+gbind (if (negb (cdim_eqb dim' DEpoch))
+ then let metadata' := (meta base_arr') in
+gbind (gfold (fun a' _ =>
+if (negb (eqb_lab (meta a') metadata'))
+ then GRaise EValue
+ else GOk tt) (tl arrays') tt) (fun _ =>
+GOk metadata')
+ else let metadata' := LMany [] in
+gbind (gfold (fun a' metadata' =>
+gbind (if ((ndim a') >=? 3)
+ then gbind (lab_extend metadata' (meta a')) (fun tmp5 =>
+let metadata' := tmp5 in
+GOk metadata')
+ else gbind (lab_append metadata' (meta a')) (fun tmp6 =>
+let metadata' := tmp6 in
+GOk metadata')) (fun metadata' =>
+GOk metadata')) arrays' metadata') (fun metadata' =>
+GOk metadata')) (fun metadata' =>
+gbind (np_concatenate_pd dim' arrays') (fun result' =>
+pd_construct result' fs' s0' channel' metadata'))))))))).
